@@ -227,6 +227,7 @@ func isLenOfField(v ssa.Value, owner, field string) bool {
 
 func C10(c *Ctx) {
 	c.Note("prefix consistency itself; batch atomicity (a request is one WAL record per entry and LSM.SetBatch may split it across segments); reopen succeeding on every crash image")
+	activeSegmentStateGroup(c, "K6.active-segment-is-in-active-state")
 	const r1 = "K5.torn-tail-classification"
 	c.Rule(r1, "wal.replayFile and wal.verifySegment classify the record iterator's terminal error identically (nil/EOF → clean end, ErrPartialRecord → clean end resp. truncate at the last complete record, ErrBadChecksum → error, default → error); vlog.iterateLogFile and sanitizeValueLog agree (nil/EOF → end, ErrPartialEntry/ErrBadChecksum → stop at the last valid offset resp. ErrTruncate, default → error)")
 	errM := MethodNamed("wal.RecordIterator", "Err")
